@@ -12,6 +12,15 @@ const USER: &[u8] = b"";
 
 fuzz_target!(|data: &[u8]| {
     let p = split_payloads(data, &[LEX, MATRIX, CHARDEF, UNK, USER]);
+    // a header announcing billions of cells only exhausts memory (reported as inconclusive by
+    // policy, never as a violation); keep it out of the campaign
+    {
+        let head = String::from_utf8_lossy(p[1].split(|&b| b == b'\n').next().unwrap_or(&[])).to_string();
+        let dims: Vec<u64> = head.split(' ').filter_map(|t| t.parse::<u64>().ok()).collect();
+        if dims.len() == 2 && dims[0].saturating_mul(dims[1]) > 16_000_000 {
+            return;
+        }
+    }
     let Ok(mut dict) = vibrato::SystemDictionaryBuilder::from_readers(p[0], p[1], p[2], p[3]) else {
         return;
     };
